@@ -98,7 +98,7 @@ def check_coeffs(rep, proj):
         ev.call(S.FuncVal(ev, fp), ["g7"], {})
         rep.bad("C11.exhaustive", fp.site, f"{fp.fq}[unknown]", "unknown polarised kind accepted")
     except S.Raised as r:
-        rep.check(r.etype == "ValueError", "C11.exhaustive", fp.site, f"{fp.fq}[unknown]", "unknown polarised kind raises ValueError", f"ends in {r}")
+        rep.check(S.raised_is(r, "ValueError"), "C11.exhaustive", fp.site, f"{fp.fq}[unknown]", "unknown polarised kind raises ValueError", f"ends in {r}")
     rep.floor("coefficient vectors folded", n, 30)
 
 
